@@ -165,14 +165,27 @@ pub fn final_check(s: &In) -> Result<(), Violation> {
                 .out
                 .iter()
                 .filter_map(|(st, p)| match (kind, p) {
-                    (Kind::Q1, Pkt::Ack { typ: 4, pid, code, .. }) if *pid == id && code.unwrap_or(0) < 0x80 => Some(*st),
+                    // any PUBACK except the Packet-Identifier-in-use refusal of a duplicate finishes the exchange
+                    (Kind::Q1, Pkt::Ack { typ: 4, pid, code, .. }) if *pid == id && code.unwrap_or(0) != 0x91 => Some(*st),
                     (Kind::Sub, Pkt::SubAck { pid, codes, .. }) if *pid == id && !codes.contains(&0x91) => Some(*st),
                     (Kind::Unsub, Pkt::UnsubAck { pid, codes, .. }) if *pid == id && !codes.contains(&0x91) => Some(*st),
                     _ => None,
                 })
                 .nth(nth)
         });
-        rqs.push(Rq { idx: i, kind, id, sent_step: snt.step, enter, released: if kind == Kind::Q2 { None } else { exit }, ack_seen, rel_sent: false });
+        // QoS 2: a PUBREC carrying an error code finishes the exchange, no PUBREL follows [MQTT-4.3.3]
+        let mut rq = Rq { idx: i, kind, id, sent_step: snt.step, enter, released: if kind == Kind::Q2 { None } else { exit }, ack_seen, rel_sent: false };
+        if kind == Kind::Q2 && enter.is_some() {
+            let rec = s.conn.out.iter().filter(|(_, p)| matches!(p, Pkt::Ack { typ: 5, pid, code, .. } if *pid == id && code.unwrap_or(0) != 0x91)).nth(nth);
+            if let Some((st, Pkt::Ack { code, .. })) = rec {
+                if code.unwrap_or(0) >= 0x80 {
+                    rq.released = exit;
+                    rq.ack_seen = Some(*st);
+                    rq.rel_sent = true;
+                }
+            }
+        }
+        rqs.push(rq);
     }
     // (C) refusals are reported the way the version prescribes
     let refused: Vec<&Rq> = rqs.iter().filter(|r| r.enter.is_none()).collect();
@@ -239,14 +252,20 @@ pub fn configs(tier: Tier) -> Vec<InCfg> {
                 vec![(full.clone(), 4, vec![]), (small.clone(), 5, vec![]), (full.clone(), 3, vec![q(1, 1)])]
             }
         };
-        for (alphabet, max_len, prologue) in variants {
+        let mut variants: Vec<(Vec<T>, u8, Vec<T>, Vec<GateOutcome>)> = variants.into_iter().map(|(a, m, p)| (a, m, p, vec![GateOutcome::Ok])).collect();
+        if ver == Ver::V5 {
+            // handler errors the application maps to a negative acknowledgement finish the exchange as well
+            let a: Vec<T> = if role == Role::Server { vec![q(1, 1), q(2, 1), T::PubRel(1), q(1, 2)] } else { vec![q(1, 1), q(1, 2)] };
+            variants.push((a, if tier == Tier::Quick { 3 } else { 4 }, vec![], vec![GateOutcome::Ok, GateOutcome::Nack(0x80)]));
+        }
+        for (alphabet, max_len, prologue, outcomes) in variants {
             v.push(InCfg {
                 ep: ep.clone(),
                 connect_props: vec![],
                 alphabet,
                 prologue,
                 max_len,
-                outcomes: vec![GateOutcome::Ok],
+                outcomes,
                 poutcomes: vec![GateOutcome::Ok],
                 cork: false,
                 judge: J_C11,
@@ -267,7 +286,7 @@ pub fn run(tier: Tier) -> i32 {
         c.known = known.clone();
         ck.explore::<In>("inbound", i, c, &ecfg);
     }
-    ck.rule = "per role: every history of up to 3-5 packets over {PUBLISH q1/q2, SUBSCRIBE, UNSUBSCRIBE, PUBREL} x id in {1,2} (clients: PUBLISH/PUBREL only), also after a completed exchange (prologue), with publish-handler and protocol-service completions placed by the explorer at every position; reference set model: an id is certainly in use until its handler completed (QoS 2: until PUBREL was sent) and certainly free once its final acknowledgement was seen on the wire; in between no demand. distinct_nontrivial = distinct final observations with >= 2 packets".into();
+    ck.rule = "per role: every history of up to 3-5 packets over {PUBLISH q1/q2, SUBSCRIBE, UNSUBSCRIBE, PUBREL} x id in {1,2} (clients: PUBLISH/PUBREL only), also after a completed exchange (prologue), with publish-handler and protocol-service completions placed by the explorer at every position (v5 also with handler errors mapped to a negative acknowledgement); reference set model: an id is certainly in use until its handler completed (QoS 2: until PUBREL was sent) and certainly free once its final acknowledgement was seen on the wire; in between no demand. distinct_nontrivial = distinct final observations with >= 2 packets".into();
     ck.assumptions = vec!["FIFO task order of ntex-rt; nondeterminism = timing of environment events (DESIGN 2.4)".into()];
     ck.finish()
 }
